@@ -405,3 +405,46 @@ Proof. vm_compute. reflexivity. Qed.
 Lemma decode_consistent_pinned :
   decode_consistent pinned pinned_decode_typemap = true /\ decode_consistent pinned pinned_w_revmap = true.
 Proof. split; vm_compute; reflexivity. Qed.
+
+(* ---- columns and index of the frame ------------------------------------------------------------- *)
+Lemma memb_false x l : memb x l = false <-> ~ In x l.
+Proof.
+  split.
+  - intros H Hin. apply memb_In in Hin. congruence.
+  - intros H. destruct (memb x l) eqn:E; [apply memb_In in E; contradiction|reflexivity].
+Qed.
+
+(* the frame's columns are exactly the wanted columns that are not index levels, in the wanted order;
+   no index level stays behind as a column; every wanted column is a column or an index level *)
+Theorem frame_columns_spec : forall cols cats request idx,
+  let want := match request with Some l => l | None => cols ++ cats end in
+  frame_columns cols cats request idx = filter (fun c => negb (memb c idx)) want /\
+  (forall c, In c (frame_columns cols cats request idx) <-> In c want /\ ~ In c idx) /\
+  (forall c, In c want -> In c (frame_columns cols cats request idx) \/ In c idx).
+Proof.
+  intros cols cats request idx want. unfold frame_columns. fold want.
+  assert (E : filter (fun c => negb (memb c idx)) (want ++ filter (fun i => negb (memb i want)) idx)
+              = filter (fun c => negb (memb c idx)) want).
+  { rewrite filter_app. rewrite <- app_nil_r. f_equal.
+    induction idx as [|i r IH] in want |- *; [reflexivity|].
+    assert (G : forall l, (forall x, In x l -> In x (i :: r)) -> filter (fun c => negb (memb c (i :: r))) l = []).
+    { intros l Hl. induction l as [|x l IHl]; [reflexivity|]. cbn [filter].
+      assert (Hx : memb x (i :: r) = true) by (apply memb_In; apply Hl; now left).
+      rewrite Hx. cbn. apply IHl. intros y Hy. apply Hl. now right. }
+    apply G. intros x Hx. apply filter_In in Hx. apply Hx. }
+  split; [exact E|]. rewrite E. split.
+  - intros c. rewrite filter_In, negb_true_iff, memb_false. tauto.
+  - intros c Hc. destruct (memb c idx) eqn:Em.
+    + right. now apply memb_In.
+    + left. apply filter_In. split; [exact Hc|]. now rewrite Em.
+Qed.
+
+(* the default index: exactly the stored non-range entries, in order *)
+Theorem get_index_default : forall stored n,
+  In n (get_index stored INone) <-> In (n, false) stored.
+Proof.
+  intros stored n. unfold get_index. rewrite in_map_iff. split.
+  - intros ([n' r] & E & H). cbn in E. subst. apply filter_In in H. destruct H as [H Hr]. cbn in Hr.
+    destruct r; [discriminate|exact H].
+  - intros H. exists (n, false). split; [reflexivity|]. apply filter_In. split; [exact H|reflexivity].
+Qed.
